@@ -91,3 +91,123 @@ Qed.
 (* ---- at the level of the three bytes ---- *)
 Lemma bits_num_sweep : forallb (fun d => lb_eqb (bits_of 18 (num_of d)) d) (all_bools 18) = true.
 Proof. vm_cast_no_check (eq_refl true). Qed.
+
+Lemma b2n_if (b : bool) : (if b then 1 else 0) = N.b2n b. Proof. destruct b; reflexivity. Qed.
+Lemma bits_of_S n x : bits_of (S n) x = N.testbit x 0 :: bits_of n (N.div2 x).
+Proof.
+  unfold bits_of. cbn [seq map]. f_equal. rewrite <- seq_shift, map_map. apply map_ext. intros i.
+  rewrite Nat2N.inj_succ. rewrite N.testbit_succ_r_div2 by apply N.le_0_l. reflexivity.
+Qed.
+Lemma bits_of_num l : bits_of (length l) (num_of l) = l.
+Proof.
+  induction l as [|b r IH]; [reflexivity|]. cbn [length num_of]. rewrite bits_of_S, b2n_if. f_equal.
+  - rewrite N.add_comm. apply N.testbit_0_r.
+  - rewrite N.div2_div. rewrite N.add_b2n_double_div2. exact IH.
+Qed.
+Lemma num_of_bits n : forall x, x < 2 ^ N.of_nat n -> num_of (bits_of n x) = x.
+Proof.
+  induction n as [|n IH]; intros x H.
+  - cbn in H. assert (x = 0) by lia. subst. reflexivity.
+  - rewrite bits_of_S. cbn [num_of]. rewrite b2n_if, N.bit0_odd.
+    assert (Hx : x = 2 * N.div2 x + N.b2n (N.odd x)) by apply N.div2_odd.
+    rewrite IH.
+    + lia.
+    + rewrite Nat2N.inj_succ, N.pow_succ_r' in H. destruct (N.odd x); cbn [N.b2n] in Hx; lia.
+Qed.
+Lemma num_of_lt l : num_of l < 2 ^ N.of_nat (length l).
+Proof.
+  induction l as [|b r IH]; [cbn; lia|]. cbn [length num_of]. rewrite Nat2N.inj_succ, N.pow_succ_r'. destruct b; lia.
+Qed.
+Lemma bits_of_length n x : length (bits_of n x) = n.
+Proof. unfold bits_of. rewrite map_length, seq_length. reflexivity. Qed.
+Lemma enc_bits_length d : length d = 18%nat -> length (ham2418_enc_bits d) = 24%nat.
+Proof. intros H. do 18 (destruct d as [|? d]; [discriminate|]). destruct d; [|discriminate]. reflexivity. Qed.
+
+(* a 24-bit number is its three bytes *)
+Lemma bytes_of_word w : w < 2 ^ 24 ->
+  N.land (N.land w 255) 255 + 256 * N.land (N.land (N.shiftr w 8) 255) 255 + 65536 * N.land (N.shiftr w 16) 255 = w.
+Proof.
+  intros H. change 255 with (N.ones 8). rewrite !N.land_ones, !N.shiftr_div_pow2. change (2 ^ 8) with 256. change (2 ^ 16) with 65536.
+  rewrite !N.mod_mod by discriminate.
+  assert (Hc : w / 65536 < 256) by (apply N.div_lt_upper_bound; [discriminate | change (65536 * 256) with (2 ^ 24); exact H]).
+  rewrite (N.mod_small (w / 65536)) by exact Hc.
+  assert (E : w / 65536 = (w / 256) / 256) by (rewrite N.div_div by discriminate; reflexivity).
+  pose proof (N.div_mod w 256 ltac:(discriminate)) as D1. pose proof (N.div_mod (w / 256) 256 ltac:(discriminate)) as D2.
+  rewrite E. lia.
+Qed.
+
+(* ---- the three bytes ---- *)
+Definition flip_byte (x : N) (k : N) : N := N.lxor x (2 ^ k).
+
+Theorem ham2418_roundtrip : forall d, d < 2 ^ 18 ->
+  let '(b0, b1, b2) := ham2418_enc d in ham2418_dec b0 b1 b2 = Some d.
+Proof.
+  intros d H. unfold ham2418_enc, ham2418_dec.
+  set (w := num_of (ham2418_enc_bits (bits_of 18 d))).
+  assert (L : length (ham2418_enc_bits (bits_of 18 d)) = 24%nat) by (apply enc_bits_length, bits_of_length).
+  assert (Hw : w < 2 ^ 24) by (subst w; pose proof (num_of_lt (ham2418_enc_bits (bits_of 18 d))) as X; rewrite L in X; exact X).
+  rewrite (bytes_of_word w Hw). subst w. rewrite <- L at 1. rewrite bits_of_num.
+  rewrite (ham2418_bits_roundtrip _ (bits_of_length 18 d)). rewrite (num_of_bits 18 d H). reflexivity.
+Qed.
+
+(* single errors at the level of the 24-bit word / its three bytes *)
+
+Lemma bytes_of_word_mod w :
+  N.land (N.land w 255) 255 + 256 * N.land (N.land (N.shiftr w 8) 255) 255 + 65536 * N.land (N.shiftr w 16) 255 = w mod 2 ^ 24.
+Proof.
+  change 255 with (N.ones 8). rewrite !N.land_ones, !N.shiftr_div_pow2. change (2 ^ 8) with 256. change (2 ^ 16) with 65536. change (2 ^ 24) with 16777216.
+  rewrite !N.mod_mod by discriminate.
+  assert (E : w / 65536 = (w / 256) / 256) by (rewrite N.div_div by discriminate; reflexivity).
+  pose proof (N.div_mod w 256 ltac:(discriminate)) as D1. pose proof (N.div_mod (w / 256) 256 ltac:(discriminate)) as D2.
+  pose proof (N.div_mod (w / 256 / 256) 256 ltac:(discriminate)) as D3.
+  pose proof (N.div_mod w 16777216 ltac:(discriminate)) as D4.
+  pose proof (N.mod_lt w 256 ltac:(discriminate)). pose proof (N.mod_lt (w / 256) 256 ltac:(discriminate)).
+  pose proof (N.mod_lt (w / 256 / 256) 256 ltac:(discriminate)). pose proof (N.mod_lt w 16777216 ltac:(discriminate)).
+  rewrite E.
+  assert (Hq : w / 16777216 = w / 256 / 256 / 256) by (rewrite !N.div_div by discriminate; reflexivity).
+  rewrite Hq in D4. lia.
+Qed.
+Lemma bits_of_mod n x : bits_of n (x mod 2 ^ N.of_nat n) = bits_of n x.
+Proof.
+  unfold bits_of. apply map_ext_in. intros i Hi. apply in_seq in Hi. apply N.mod_pow2_bits_low. lia.
+Qed.
+Lemma bits_flip n : forall x p, (p < n)%nat -> bits_of n (N.lxor x (2 ^ N.of_nat p)) = flip (bits_of n x) p.
+Proof.
+  induction n as [|n IH]; intros x p Hp; [lia|]. rewrite !bits_of_S. destruct p as [|p].
+  - cbn [flip N.of_nat]. change (2 ^ 0) with 1. f_equal.
+    + rewrite N.lxor_spec. cbn. apply xorb_true_r.
+    + rewrite !N.div2_spec. rewrite N.shiftr_lxor. change (N.shiftr 1 1) with 0. rewrite N.lxor_0_r. reflexivity.
+  - cbn [flip]. f_equal.
+    + rewrite N.lxor_spec. rewrite N.pow2_bits_false by (rewrite Nat2N.inj_succ; lia). apply xorb_false_r.
+    + rewrite !N.div2_spec, N.shiftr_lxor. rewrite <- !N.div2_spec.
+      replace (N.div2 (2 ^ N.of_nat (S p))) with (2 ^ N.of_nat p).
+      * apply IH. lia.
+      * rewrite Nat2N.inj_succ, N.pow_succ_r', N.div2_double. reflexivity.
+Qed.
+
+Theorem ham2418_word_roundtrip : forall d, d < 2 ^ 18 -> ham2418_dec_word (ham2418_word d) = Some d.
+Proof.
+  intros d H. unfold ham2418_dec_word, ham2418_dec, ham2418_word. rewrite bytes_of_word_mod.
+  rewrite (bits_of_mod 24). 
+  assert (L : length (ham2418_enc_bits (bits_of 18 d)) = 24%nat) by (apply enc_bits_length, bits_of_length).
+  rewrite <- L at 1. rewrite bits_of_num. rewrite (ham2418_bits_roundtrip _ (bits_of_length 18 d)). rewrite (num_of_bits 18 d H). reflexivity.
+Qed.
+(* any one of the 24 bits inverted on the way: corrected *)
+Theorem ham2418_word_single_error : forall d p, d < 2 ^ 18 -> (p < 24)%nat ->
+  ham2418_dec_word (N.lxor (ham2418_word d) (2 ^ N.of_nat p)) = Some d.
+Proof.
+  intros d p H Hp. unfold ham2418_dec_word, ham2418_dec, ham2418_word. rewrite bytes_of_word_mod.
+  rewrite (bits_of_mod 24). rewrite (bits_flip 24 _ p Hp).
+  assert (L : length (ham2418_enc_bits (bits_of 18 d)) = 24%nat) by (apply enc_bits_length, bits_of_length).
+  rewrite <- L at 1. rewrite bits_of_num. rewrite (ham2418_bits_single_error _ p (bits_of_length 18 d) Hp). rewrite (num_of_bits 18 d H). reflexivity.
+Qed.
+(* any two of them: rejected *)
+Theorem ham2418_word_double_error : forall d p q, d < 2 ^ 18 -> (p < 24)%nat -> (q < 24)%nat -> p <> q ->
+  ham2418_dec_word (N.lxor (N.lxor (ham2418_word d) (2 ^ N.of_nat p)) (2 ^ N.of_nat q)) = None.
+Proof.
+  intros d p q H Hp Hq Hpq. unfold ham2418_dec_word, ham2418_dec, ham2418_word. rewrite bytes_of_word_mod.
+  rewrite (bits_of_mod 24). rewrite (bits_flip 24 _ q Hq), (bits_flip 24 _ p Hp).
+  assert (L : length (ham2418_enc_bits (bits_of 18 d)) = 24%nat) by (apply enc_bits_length, bits_of_length).
+  rewrite <- L at 1. rewrite bits_of_num. rewrite (ham2418_bits_double_error _ p q (bits_of_length 18 d) Hp Hq Hpq). reflexivity.
+Qed.
+Print Assumptions ham2418_word_double_error.
